@@ -119,7 +119,7 @@ EXPORT errno_t _strncpy_s_chk(char *restrict dest, rsize_t dmax,
     char *orig_dest;
     const char *overlap_bumper;
 
-    if (unlikely(slen == 0 && dest && dmax)) {
+    if (unlikely(slen == 0 && dest && dmax && dmax <= RSIZE_MAX_STR)) {
         *dest = '\0';
         return EOK;
     }
